@@ -7,7 +7,7 @@ Well-posedness is made operational with the *reference* cost: its minimum (Nelde
 definite Hessian with cond <= 5e3 and lie within 4 reference sigma of the truth.
 Checks: (1) no displaced point within the limits has a reference cost lower than at the reported optimum by more than 1e-3;
 (2) both backends agree within 0.05 sigma; (3) fixed parameters keep exactly their values, limited ones stay inside the closed
-interval; (4) iterative algorithm: a refit with the covariance frozen at the reported optimum does not move it (<= 0.05 sigma).
+interval; (4) iterative algorithm: a refit with the covariance frozen at the reported optimum does not move it (<= 0.1 sigma).
 """
 import numpy as np
 from hypothesis import strategies as st
@@ -139,6 +139,10 @@ def run(case):
     dyn = ref.t == "xy" and any(s.get("enabled", True) and (s.get("axis") == "x" or (s["ref"] == "model" and s["relative"])) for s in spec["sources"])
     dyn = dyn or (ref.t == "indexed" and any(s.get("enabled", True) and s["ref"] == "model" and s["relative"] for s in spec["sources"]))
     # ---- well-posedness by the reference
+    if ref.t == "xy":
+        sx = np.sqrt(np.clip(np.diag(ref.axis_cov("x", {nm: spec["start"].get(nm, fixed_vals.get(nm)) for nm in names})), 0, None))
+        if np.any(sx > 0) and np.max(sx) > 0.5 * np.min(np.diff(np.sort(ref.x))):
+            raise Discard("x uncertainties exceed half the spacing of the points: the first-order projection kafe2 documents is not meaningful there (jagged cost surface; not well-posed)")
     try:
         xr, fr, cost_free = reference_minimum(ref, spec, free, fixed_vals)
     except Exception:
@@ -168,8 +172,18 @@ def run(case):
         sp = dict(spec, minimizer=backend)
         with guard(f"build[{spec['type']}]"):
             fit = fs.build(sp)
-        with guard(f"do_fit[{backend}]"):
+        n_min = {"n": 0}
+        _inner = fit._fitter.do_fit
+
+        def _counted(*a, _inner=_inner, **k):  # number of minimisations inside one do_fit (observed from the harness, kafe2 is not changed)
+            n_min["n"] += 1
+            return _inner(*a, **k)
+        fit._fitter.do_fit = _counted
+        try:
             fit.do_fit()
+        except Exception as ex:  # noqa: the property speaks about the optimum that is reported, not about whether a fit can be completed
+            raise Discard(f"do_fit[{backend}] raised {type(ex).__name__} (no optimum reported)")
+        fit._fitter.do_fit = _inner
         with guard("results"):
             pv = np.asarray(fit.parameter_values, float)
             pe = np.asarray(fit.parameter_errors, float)
@@ -217,8 +231,11 @@ def run(case):
                 fit2.do_fit()
             pv2 = np.asarray(fit2.parameter_values, float)
             for i, nm in enumerate(names):
-                if nm in free and abs(pv2[i] - pv[i]) > 0.05 * max(pe[i], 1e-300):
-                    raise Violation("iterative-not-a-fixed-point", f"{nm}: reported {pv[i]!r}, refit with the covariance evaluated at the reported optimum gives {pv2[i]!r} "
+                if nm in free and abs(pv2[i] - pv[i]) > 0.1 * max(pe[i], 1e-300):  # two minimisations, each within 0.045 sigma of its minimum
+                    # bug model of KF-C06-2: the loop of do_fit used up all its iterations (1 initial fit + max_iterations refits) without converging
+                    max_it = int(fs.k("kafe2.config").kc("fit", "iterative_do_fit", "max_iterations"))
+                    facet = "iterative-loop-exhausted" if n_min["n"] >= 1 + max_it else "iterative-not-a-fixed-point"
+                    raise Violation(facet, f"{nm}: reported {pv[i]!r}, refit with the covariance evaluated at the reported optimum gives {pv2[i]!r} "
                                     f"({(pv2[i] - pv[i]) / pe[i]:.3g} sigma)")
             labels.add("iterative_fixed_point_checked")
     # (2) backends agree
@@ -226,11 +243,22 @@ def run(case):
     for i, nm in enumerate(names):
         if nm in free:
             s = ea[i] if np.isfinite(ea[i]) and ea[i] > 0 else sref[free.index(nm)]
-            a_, b_ = (abs(pa[i]), abs(pb[i])) if nm in ("s", "g") else (pa[i], pb[i])  # the peak families depend on the width only through its square
-            if abs(a_ - b_) > 0.05 * s:
+            a_, b_ = (abs(pa[i]), abs(pb[i])) if nm in ("s", "g", "sigma") else (pa[i], pb[i])  # peak families and the normal density depend on the width only through its square
+            if abs(a_ - b_) > 0.1 * s:  # each backend may stop 1e-3 in cost (= 0.045 sigma on a parabola) away from the minimum: 2 x 0.045 sigma apart
                 ca = cost_free(np.array([dict(zip(names, pa))[n_] for n_ in free]))
                 cb = cost_free(np.array([dict(zip(names, pb))[n_] for n_ in free]))
                 worse = "scipy" if cb > ca + 1e-3 else ("iminuit" if ca > cb + 1e-3 else "neither")
+                if not (np.isfinite(ca) and np.isfinite(cb)) or max(abs(ca), abs(cb)) >= 1e29:
+                    raise Discard("full cost not finite at the reported optimum (ill-posed)")
+                if worse == "neither" and abs(a_ - b_) <= 0.3 * s:
+                    continue  # both within the minimiser tolerance of the same minimum in cost: the valley is flatter than the parabola the uncertainty assumes
+                # two different local minima of the full cost (a barrier on the segment between them) = multi-modal surface, which the property
+                # excludes as not well-posed; a backend that stopped on a slope towards the other one's result is a violation
+                va_ = np.array([dict(zip(names, pa))[n_] for n_ in free])
+                vb_ = np.array([dict(zip(names, pb))[n_] for n_ in free])
+                seg = [cost_free(va_ + t_ * (vb_ - va_)) for t_ in (0.02, 0.05, 0.1, 0.25, 0.5, 0.75, 0.9, 0.95, 0.98)]
+                if np.all(np.isfinite(seg)) and max(seg) > max(ca, cb) + 1e-5 * max(1.0, abs(ca), abs(cb)):
+                    raise Discard("the two backends sit in different local minima separated by a barrier (multi-modal surface: not well-posed)")
                 lim_tag = ",limits" if spec.get("limits") else ""
                 raise Violation(f"backends-disagree[{spec['type']}:{spec.get('dea', 'nonlinear')}:worse={worse}{lim_tag}]",
                                 f"{nm}: iminuit {pa[i]!r} (full cost {ca!r}), scipy {pb[i]!r} (full cost {cb!r}): {(pa[i] - pb[i]) / s:.3g} sigma apart; limits {spec.get('limits')}")
@@ -244,6 +272,11 @@ def run(case):
 
 
 KNOWN = {
+    # iterative treatment of dynamic uncertainties: the loop in FitBase.do_fit (refit with the uncertainties frozen at the previous result until the cost
+    # changes by < 1e-5, at most max_iterations = 10 times) does not always converge when the dynamic uncertainties are large (cycles of period 2, slow
+    # drift); do_fit then returns the last state without a warning.  Bug model checked by the harness: the number of minimisations inside do_fit
+    # (counted by wrapping fit._fitter.do_fit) equals 1 + max_iterations, i.e. the loop was exhausted.
+    "KF-C06-2": lambda sub, case, v: case["spec"].get("dea") == "iterative" and v.facet == "iterative-loop-exhausted",
     # MinimizerScipyOptimize passes tol=1e-6 to scipy.optimize.minimize; with parameter limits scipy selects L-BFGS-B, for which tol becomes the
     # *relative* function-reduction threshold ftol: the search stops ("RELATIVE REDUCTION OF F <= FACTR*EPSMCH") far from the constrained
     # minimum (several cost units) when a step along an active bound makes little progress.
